@@ -15,9 +15,9 @@ Definition scall_of (c : call) (s : name * parser * list (tpath * val) * list ar
   let '(nm, ps, env, argv) := s in
   {| s_parent := c; s_name := nm; s_sub := ps; s_subenv := env; s_subargv := argv |}.
 
-Definition agree_model_sub (sc : scall) (obs : option (list val * bool)) : bool :=
+Definition agree_model_sub (fx : fixes) (sc : scall) (obs : option (list val * bool)) : bool :=
   let p := all_decls sc in
-  match pipeline_sub sc, obs with
+  match pipeline_sub_fx fx sc, obs with
   | Ok t, Some (vals, extra) =>
       list_eqb val_eqb (observe_values p t) vals && Bool.eqb (observe_extra p t) extra
   | Unrecognized, None => true
@@ -47,7 +47,7 @@ Definition agree_spec (c : case) : bool :=
   | None => negb (wf_call (k_call c))
   end.
 
-Definition judge1 (c : case) : verdict :=
+Definition judge1_fx (fx : fixes) (c : case) : verdict :=
   match k_sub c with
   | None =>
       {| v_model := agree_model c;
@@ -55,9 +55,19 @@ Definition judge1 (c : case) : verdict :=
          v_spec := agree_spec c |}
   | Some s =>
       let sc := scall_of (k_call c) s in
-      {| v_model := agree_model_sub sc (k_obs c);
-         v_class := scall_class sc;
+      let m := agree_model_sub fx sc (k_obs c) in
+      let k := scall_class_fx (fx_append fx) (fx_section fx) sc in
+      (* a finding class of the subcommand level only counts when the faithful model reproduces the
+         observation; any other failure on such an input is class 9 (never a listed finding) *)
+      {| v_model := m;
+         v_class := if (N.leb 3 k && N.leb k 5 && negb m)%bool then 9%N else k;
          v_spec := agree_spec_sub sc (k_obs c) |}
   end.
 
+Definition judge1 : case -> verdict := judge1_fx nofix.
 Definition judge (cs : list case) := judge_all judge1 cs.
+
+(* the judges for a tree with the proposed repairs applied (tie/props/c04.py JUDGE) *)
+Definition judge_fixed_append (cs : list case) := judge_all (judge1_fx {| fx_append := true; fx_section := false |}) cs.
+Definition judge_fixed_section (cs : list case) := judge_all (judge1_fx {| fx_append := false; fx_section := true |}) cs.
+Definition judge_fixed (cs : list case) := judge_all (judge1_fx {| fx_append := true; fx_section := true |}) cs.
